@@ -242,7 +242,8 @@ CanonField(env, log, id, p, fld) ==
       nodeStr(v) == IF "node" \in DOMAIN v THEN CanonInst(env, log, v.node)
                     ELSE IF "user" \in DOMAIN v THEN "PWord{W=" \o Q(v.user) \o "}" ELSE "?"
   IN CASE kind = "string" -> Q(JoinSeq([i \in 1..Len(ws) |-> JoinStr(ws[i].vals, 1)], 1, ""))
-       [] kind = "strings" -> LET fv == FlatVals(ws, 1) IN "[" \o JoinSeq([j \in 1..Len(fv) |-> Q(fv[j].s)], 1, ",") \o "]"
+       \* "capt": a field of a user type implementing participle.Capture that appends what it is given (like []string)
+       [] kind \in {"strings", "capt"} -> LET fv == FlatVals(ws, 1) IN "[" \o JoinSeq([j \in 1..Len(fv) |-> Q(fv[j].s)], 1, ",") \o "]"
        [] IsNumSlice(kind) -> (LET fv == FlatVals(ws, 1) IN "[" \o JoinSeq([j \in 1..Len(fv) |-> env.g.conv[ElemKind(kind)][fv[j].s]], 1, ",") \o "]")
        [] IsNum(kind) -> (LET nz == SelectSeq(ws, LAMBDA w : Len(w.vals) > 0) IN
                           IF Len(nz) = 0 THEN "0" ELSE env.g.conv[kind][JoinVals(nz[Len(nz)].vals, 1)])
